@@ -17,7 +17,7 @@ from vlib import gherkin_render as gr
 PROPERTY = "C05"
 LEVEL = "model_checking"
 RULE = ("Alphabet: 33 plain line kinds + 19 hostile-text twins (same keyword / cell count, the name, cell, tag word, "
-        "free text made of the str.format and %-interpolation metacharacters '{name} {} } { %s %(x)s %') = 52 kinds. "
+        "free text made of the str.format and %-interpolation metacharacters '{name} {} } { %s %(x)s %') = 52 kinds (+ 2 step kinds whose text ends with a colon). "
         "Plain kinds: (block keyword lines in en and de, step lines given/when/then/and/but/*, a de step, "
         "tag line, malformed tag line, table rows of 1/2 cells and one without closing pipe, both doc-string quotes, "
         "free text, text indented less than an open doc-string, comment, '# language: de', '# language: zz', blank, "
@@ -40,7 +40,10 @@ RULE = ("Alphabet: 33 plain line kinds + 19 hostile-text twins (same keyword / c
         "it (quick: the atoms rotate over the positions, every fault kind meets every atom in both placements; "
         "thorough: every atom at every position). The malformed tag line is also checked inside both searches (a ParserError raised for it must carry "
         "its own line number, whatever blank / comment lines precede it) and at every position of multi-line tag texts "
-        "with blank and comment-only lines through parse_tags. A raised ParserError must also be printable (str()). Parser reuse (what Context.execute_steps does): ALL "
+        "with blank and comment-only lines through parse_tags. The breadth-first search is repeated with the documented environment switch "
+        "BEHAVE_STRIP_STEPS_WITH_TRAILING_COLON=yes (a private copy of behave/parser.py executed with the variable set, "
+        "os.environ restored; 33 plain kinds + 2 step kinds whose text ends with ':') for parse_feature / parse_rule / "
+        "parse_scenario / parse_steps. A raised ParserError must also be printable (str()). Parser reuse (what Context.execute_steps does): ALL "
         "sequences of <= 2 (quick) / <= 3 (thorough) calls of parse / parse_steps / parse_scenario / parse_rule / "
         "parse_tags on ONE Parser object over 26 (method, text) operations (valid Given/When/Then texts, texts "
         "starting with And / But / *, texts that raise mid-document, a doc-string left open, a table / tags / Examples "
@@ -74,23 +77,30 @@ def init_worker():
 # ================================================================ E2: breadth-first search
 def bfs_expand(case):
     """case = (entry, history): executes all NK one-line extensions of a frontier history"""
-    if len(case) == 3:
-        return bfs_single(case[:2])
-    entry, hist = case
-    out0, dead0, s0, _, _ = ps.run_history(entry, hist)
+    mode = case[2] if len(case) == 3 else ""
+    if mode.endswith("one"):
+        return bfs_single(case)
+    entry, hist = case[0], case[1]
+    # mode "on": the same search in a private copy of behave.parser executed with
+    # BEHAVE_STRIP_STEPS_WITH_TRAILING_COLON=yes, over the plain kinds + steps that end with ':'
+    env = ps.switched_env() if mode == "on" else None
+    out0, dead0, s0, _, _ = ps.run_history(entry, hist, env)
     res = []
-    for k in range(NK):
+    for k in (ps.SWITCH_ON_KINDS if env else range(NK)):
         h = hist + (k,)
         text = ps.text_of(h)
-        out, dead, s, calls, _ = ps.run_text(entry, text, len(h))
-        where = "history [%s]" % ps.names_of(h)
+        out, dead, s, calls, _ = ps.run_text(entry, text, len(h), env)
+        where = "history [%s]%s" % (ps.names_of(h), SWITCH_NOTE if env else "")
         v = ps.invariant(entry, text, out, calls, where)
         v += ps.fault_line_violation(entry, h, not dead0, dead, out)
+        if env:
+            for d, _ in v:
+                d["switch"] = "strip-colon"
         oc = ps.outclass(out, len(h))
         changed = dead or s != s0
-        res.append({"case": (entry, h, "one"), "v": v,
-                    "nt": (entry, s0, k) if changed else None,
-                    "out": (entry,) + tuple(x for x in oc if not isinstance(x, int)),
+        res.append({"case": (entry, h, "on-one" if env else "one"), "v": v,
+                    "nt": (entry, mode, s0, k) if changed else None,
+                    "out": (entry, mode) + tuple(x for x in oc if not isinstance(x, int)),
                     "dg": (out, dead, s, calls),
                     "keep": (s0, k, s, h, dead, oc, tuple(sorted(tuple(sorted(d.items())) for d, _ in v))),
                     "st": {"transitions": 1, "traces": 1}})
@@ -99,17 +109,24 @@ def bfs_expand(case):
 
 def bfs_single(case):
     """replay form of one BFS history"""
-    entry, hist = case
+    entry, hist = case[0], case[1]
+    env = ps.switched_env() if len(case) > 2 and case[2].startswith("on") else None
     text = ps.text_of(hist)
-    pdead = ps.run_history(entry, hist[:-1])[1] if hist else True
-    out, dead, s, calls, _ = ps.run_text(entry, text, len(hist))
-    v = ps.invariant(entry, text, out, calls, "history [%s]" % ps.names_of(hist))
+    pdead = ps.run_history(entry, hist[:-1], env)[1] if hist else True
+    out, dead, s, calls, _ = ps.run_text(entry, text, len(hist), env)
+    v = ps.invariant(entry, text, out, calls, "history [%s]%s" % (ps.names_of(hist), SWITCH_NOTE if env else ""))
     v += ps.fault_line_violation(entry, hist, not pdead, dead, out)
+    if env:
+        for d, _ in v:
+            d["switch"] = "strip-colon"
     return {"v": v, "dg": (out, dead, s)}
 
 
-def run_bfs(ctx, entry):
-    out, dead, s0, calls, _ = ps.run_history(entry, ())
+SWITCH_NOTE = " (behave.parser executed with BEHAVE_STRIP_STEPS_WITH_TRAILING_COLON=yes)"
+
+
+def run_bfs(ctx, entry, mode=""):
+    out, dead, s0, calls, _ = ps.run_history(entry, (), ps.switched_env() if mode == "on" else None)
     ctx.guard(not dead and s0 is not None, "entry %s: the empty text is accepted" % entry)
     seen = {s0: ()}
     trans = {}
@@ -122,8 +139,8 @@ def run_bfs(ctx, entry):
         if depth > 40:
             ctx.cap("bfs depth 40 for entry %s" % entry)
             break
-        kept = ctx.sweep(bfs_expand, [(entry, h) for h in frontier], chunk=2,
-                         name="bfs %s depth %d" % (entry, depth), keep=True)
+        kept = ctx.sweep(bfs_expand, [(entry, h, mode) if mode else (entry, h) for h in frontier], chunk=2,
+                         name="bfs %s%s depth %d" % (entry, " [strip-colon switch on]" if mode else "", depth), keep=True)
         kept.sort(key=lambda x: x[3])
         nxt = []
         for sp, k, s, h, dead, oc, vk in kept:
@@ -645,6 +662,14 @@ def run(ctx):
         bfs[entry] = run_bfs(ctx, entry)
     ctx.note("bfs", {e: {"states": len(b["states"]), "transitions": len(b["trans"]), "depth_to_fixpoint": b["depth"]}
                      for e, b in bfs.items()})
+    # the same search with the documented environment switch ON (private module copy; the text entry points)
+    bfs_on = {}
+    for entry in ("feature", "rule", "scenario", "steps"):
+        bfs_on[entry] = run_bfs(ctx, entry, "on")
+    ctx.note("bfs_strip_colon_switch_on", {e: {"states": len(b["states"]), "transitions": len(b["trans"]),
+                                                 "depth_to_fixpoint": b["depth"]} for e, b in bfs_on.items()})
+    ctx.bounds["switch_on"] = ("BEHAVE_STRIP_STEPS_WITH_TRAILING_COLON=yes: search to fixpoint over %d kinds (plain + steps "
+                               "ending with ':') for parse_feature/rule/scenario/steps" % len(ps.SWITCH_ON_KINDS))
     state_names = set(s[1] for s in bfs["feature"]["states"] if s)
     ctx.guard(state_names >= set(ps.install()["states"]),
               "every parser State that has an action_<state> handler is reached by the feature search (reached: %s)" % sorted(state_names))
